@@ -10,7 +10,7 @@ intro='''### Rounds 2 and 3
 Two further rounds asked fresh sub-agents for changes that *need something specific to manifest*
 (a particular interleaving, a fault at a particular point, a long multi-step history, a boundary
 value, an unusual but legal input, two cooperating sites) and told them which mechanisms earlier
-rounds had already used. Seeds `<ID>-3/-4` are round 2, `<ID>-5/-6` round 3. Every seed was
+rounds had already used. Seeds `<ID>-3/-4` are round 2, `<ID>-5/-6` round 3, `<ID>-7/-8` round 4. Every seed was
 re-confirmed with `tools/verify_seed.sh` (`verify.json` next to the patch). "first" is the result of
 the quick check as it was when the change arrived (`seeded/first_results.json`); "now" and the key
 come from `tools/seed_matrix.sh`, which applies every seed to `/repo`, runs the quick check of its
@@ -20,8 +20,17 @@ added; each of them is described in §8.1.
 
 '''
 notes='''
-Notes. 134 seed × check runs; 131 report a violation of the seeded change (C12-1 only through C01's
-progress clause, C03-7 only through C11's readability clause, as the rows say); C12-7 is not caught.
+Notes. {NROWS} seed × check runs; {NCAUGHT} report a violation of the seeded change (C12-1 only through
+C01's progress clause, as the rows say; C03-7 was at first reported only by C11's readability clause and
+is now also caught by C03's own send clause, see §8.1); C12-7 is not caught. The eight `-7` seeds for
+C04 C05 C13 C14 C15 C18 C19 C20 come from a last wave of fresh sub-agents (one change each, same
+instructions); they were checked one per private lane with `tools/seed_lane.sh` (scratch worktree of
+`/repo` plus a copy of the harness, so `/repo` itself is untouched) while sixteen builds shared the
+machine (load > 150), and all eight were caught by the quick check as it stood, without any change
+to the engines. In their `verify.json` the suite line shows `interop_datachannel_stress_test` failing
+next to the known failure: that test has a 30 s wall-clock deadline and timed out under that load in
+every lane, whatever the change; it was re-run alone with each change applied (`stress_test_rerun` in
+`verify.json`) and passes.
 Two detections are sensitive to circumstances: C10-5 (two writers must interleave on one ICE-TCP
 stream) was missed once when five matrix lanes and a quick sweep shared the machine and is caught when
 run alone; C13-6 was caught in about half of the runs until the `tsnwrap-bulk` scenarios were added
@@ -30,6 +39,9 @@ branch of the supervision loop (`continue` while waiting for the wire to go quie
 partially reliable channels) bypassed the per-scenario watchdog, and the never-acknowledged DCEP OPEN
 kept the wire busy. The watchdog is now evaluated first in every iteration; the run takes 67 s.
 '''
+import json as _j
+_rows=[_j.loads(l) for l in open('/verif/seeded/matrix.jsonl')]
+notes=notes.replace('{NROWS}',str(len(_rows))).replace('{NCAUGHT}',str(sum(1 for r in _rows if r['exit']==1 and r['violations']>0)))
 block=begin+'\n'+intro+table+notes+'\n'+end
 if begin in s:
     s=re.sub(re.escape(begin)+r'.*?'+re.escape(end),lambda m:block,s,flags=re.S)
